@@ -70,6 +70,13 @@ func c16(w *World) {
 		}
 		seq := sc.NextSeq()
 		fields := AdminMsg(typ, seq, sc.PeerID, sc.LibID, extra...)
+		if w.W.Chance(1, 3) {
+			// text that looks like a sequence number inside other fields, ahead of the real one:
+			// a tag that ends in 34 and values that contain "34="
+			look := []Field{F(134, itoa(900+i)), F(50, "34="+itoa(700+i)), F(1134, "x")}[w.W.Draw(3)]
+			fields = append([]Field{fields[0], look}, fields[1:]...)
+			w.Probe("seqnum_lookalike")
+		}
 		opts := WireOpts{}
 		damage := ""
 		wantTag34 := false
